@@ -102,11 +102,11 @@ Qed.
 
 Lemma section_rebuilt o sec l ds m :
   1 <= sec <= 3 -> SecDesc o l ds -> Forall (wf_rrset o) l -> keys_fresh [] l -> get_sec m sec = [] ->
-  exists l', Forall2 rrset_equiv l' l /\ fold_left (apply_d sec false) ds m = set_sec m sec l'.
+  exists l', Forall2 rrset_equiv l' l /\ fold_left (apply_d sec false) ds m = set_sec m sec l' /\ Rebuilt l ds l'.
 Proof.
   intros Hs SD WF KF HE. rewrite fold_apply_d_eq by lia. rewrite HE.
-  destruct (regroup_sec o l ds [] [] SD WF (Forall2_nil _) KF) as (l' & EQ & E).
-  exists l'. split; [exact EQ|]. rewrite E. reflexivity.
+  destruct (regroup_sec o l ds [] [] SD WF (Forall2_nil _) KF) as (l' & EQ & E & RB).
+  exists l'. split; [exact EQ|]. split; [|exact RB]. rewrite E. reflexivity.
 Qed.
 
 (* ---------- corollaries ---------- *)
